@@ -13,7 +13,9 @@ static std::string lenclass(size_t n, int T) {
   return "r16=" + std::to_string(n % 16) + ",lastchunkblocks=" + std::to_string((padded % S) / 16) + ",chunks" + rel + "T";
 }
 
+static size_t g_total_cases = 0;
 static void build(const Args &a, std::vector<Case> &out) {
+  size_t shard = (size_t)a.num("shard", 0), nshards = (size_t)a.num("nshards", 1), idx = 0; // only this shard's cases are materialised
   std::string mode = a.str("mode", "c01");
   bool thorough = a.str("tier", "quick") == "thorough";
   int nkeys = thorough ? 3 : 1, nseeds = (mode == "c02") ? (thorough ? fo::NSEEDS : 3) : (thorough ? 3 : 2), ncont = thorough ? 4 : 2;
@@ -22,17 +24,21 @@ static void build(const Args &a, std::vector<Case> &out) {
       for (size_t n : {S - 17, S - 16, S - 1, S, S + 1, 2 * S - 16, 2 * S + 3, 4 * S - 16, 4 * S + 3})
         for (int cm : {1, 2}) {
           if (T == 1 && n > 2 * S + 3) continue; // T=1: the single buffer is refilled from the second chunk on; T=4: from the fifth
+          if (idx++ % nshards != shard) continue;
           Case c;
           c.set("T", T).set("n", (long)n).set("cm", cm).set("hm", cm % 3).set("k", 0).set("sd", 0).set("ct", cm == 1 ? 1 : 0);
           c.cls = "production:T=" + std::to_string(T) + ",cm=" + std::to_string(cm) + "," + lenclass(n, T);
           out.push_back(c);
         }
+    g_total_cases = idx;
     return;
   }
-  std::vector<int> Ts = a.list("T", {1, 2, 3, 4, 5, 6, 7, 8, 9, 10, 11, 12, 13, 14, 15, 16});
+  bool rr = a.str("sched", "canon") == "rr"; // the round-robin schedule with points inside the stream code: only T >= 2 can differ from the canonical one
+  std::vector<int> Ts = a.list("T", rr ? (thorough ? std::vector<int>{2, 3, 4, 5, 8, 16} : std::vector<int>{2, 3, 4}) : std::vector<int>{1, 2, 3, 4, 5, 6, 7, 8, 9, 10, 11, 12, 13, 14, 15, 16});
+  if (rr) { nkeys = 1; nseeds = 1; ncont = thorough ? 2 : 1; }
   for (int T : Ts) {
     size_t maxn = (size_t)(T + 2) * S + 17;
-    bool allh = (T == 1 || T == 2 || T == 4) || thorough; // thorough: every hash mode for every T
+    bool allh = ((T == 1 || T == 2 || T == 4) || thorough) && !rr; // thorough: every hash mode for every T
     for (size_t n = 0; n <= maxn; n++)
       for (int cm = 0; cm < 5; cm++)
         for (int hm = 0; hm < (allh ? 3 : 1); hm++) {
@@ -42,13 +48,15 @@ static void build(const Args &a, std::vector<Case> &out) {
               for (int ct = 0; ct < ncont; ct++) {
                 if ((k != 0) + (sd != 0) + (ct != 0) > 1) continue;
                 if ((k || sd || ct) && !allh && (n % 5)) continue; // deviations on every 5th length for the other T
+                if (idx++ % nshards != shard) continue;
                 Case c;
                 c.set("T", T).set("n", (long)n).set("cm", cm).set("hm", hm).set("k", k).set("sd", sd).set("ct", ct);
-                c.cls = "T=" + std::to_string(T) + ",cm=" + std::to_string(cm) + ",hm=" + std::to_string(hm) + "," + lenclass(n, T);
+                c.cls = std::string(rr ? "rr," : "") + "T=" + std::to_string(T) + ",cm=" + std::to_string(cm) + ",hm=" + std::to_string(hm) + "," + lenclass(n, T);
                 out.push_back(c);
               }
         }
   }
+  g_total_cases = idx;
 }
 
 static std::string run_c01(const Case &c) {
@@ -97,9 +105,10 @@ int main(int argc, char **argv) {
   { std::string w; if (ref::selftest(w)) { fprintf(stderr, "reference self-test failed: %s\n", w.c_str()); return 9; } }
   Args a(argc, argv);
   std::string mode = a.str("mode", "c01");
+  if (a.str("sched", "canon") == "rr") { fo::g_sched_policy = 1; fo::g_streampoints = 1; }
   Spec sp;
   sp.harness = "fgrid";
-  sp.build = build;
+  sp.build = [&sp](const Args &a, std::vector<Case> &out) { build(a, out); sp.presharded = true; sp.presharded_total = g_total_cases; };
   sp.run = mode == "c02" ? run_c02 : run_c01;
   sp.on_death = [](const Case &, const CaseResult &cr) { return "abnormal-end:" + std::string(cr.exitcode == 42 ? "deadlock" : cr.exitcode == 77 ? "asan" : cr.timeout ? "hang" : "crash") + "|operation did not return normally: " + describe_death(cr); };
   sp.alarm_s = a.num("prod", 0) ? 600 : 30;
